@@ -15,6 +15,9 @@ import numpy as np
 FOURPI = 4.0 * np.pi
 
 
+AMP = [0.0]  # running maximum of kappa * |velocity| over the segment evaluations since the last reset (see seg)
+
+
 def seg(P, a, b):
     """velocity at points P (n,3) of a unit-strength straight vortex segment from a to b."""
     r1 = P - a
@@ -31,6 +34,13 @@ def seg(P, a, b):
     k = (r1 / n1s[:, None] - r2 / n2s[:, None]) @ r0
     out = c * (k / c2s / FOURPI)[:, None]
     out[on_line] = 0.0
+    if AMP is not None and out.dtype == np.float64:
+        # conditioning of the usual one-over-(|r1||r2| + r1.r2) form of this kernel (the repository's): for a point close to the
+        # segment the denominator cancels; round-off of that form is about eps * kappa * |velocity|
+        d = n1 * n2 + np.einsum("ij,ij->i", r1, r2)
+        ok = ~on_line & (d > 0)
+        if ok.any():
+            AMP[0] = max(AMP[0], float(np.max((n1 * n2)[ok] / d[ok] * np.linalg.norm(out[ok], axis=1))))
     return out
 
 
@@ -46,6 +56,12 @@ def semi(P, a, u):
     rns = np.where(rn == 0, 1.0, rn)
     out = np.cross(u, r) * ((1.0 + ru / rns) / h2s / FOURPI)[:, None]
     out[on_line] = 0.0
+    if AMP is not None and out.dtype == np.float64:
+        # the usual |r| (|r| - u.r) form of this kernel (the repository's) cancels for points close to the filament downstream of its start
+        d = rn - ru
+        ok = ~on_line & (d > 0)
+        if ok.any():
+            AMP[0] = max(AMP[0], float(np.max(rn[ok] / d[ok] * np.linalg.norm(out[ok], axis=1))))
     return out
 
 
@@ -107,6 +123,7 @@ def solve(meshes, alpha_deg, beta_deg=0.0, v=1.0, rho=1.0, omega=None, cg=None, 
     vinf, u = freestream(alpha_deg, beta_deg, v)
     panels, coll, fpt, bnd, nrm = panel_geometry(meshes)
     N = len(panels)
+    AMP[0] = 0.0
     Vc = np.tile(vinf, (N, 1))
     Vf = np.tile(vinf, (N, 1))
     if omega is not None:
@@ -140,7 +157,43 @@ def solve(meshes, alpha_deg, beta_deg=0.0, v=1.0, rho=1.0, omega=None, cg=None, 
     Vloc = Vf + np.einsum("klc,l->kc", Wf, G)
     F = rho * Gh[:, None] * np.cross(Vloc, bnd)
     return dict(panels=panels, coll=coll, fpt=fpt, bnd=bnd, nrm=nrm, Vc=Vc, Vf=Vf, Wc=Wc, Wf=Wf, A=A, rhs=rhs, G=G, Gh=Gh,
-                Vloc=Vloc, F=F, vinf=vinf, u=u, rho=rho)
+                Vloc=Vloc, F=F, vinf=vinf, u=u, rho=rho, kernel_amp=AMP[0])
+
+
+def aic_extended(meshes, alpha_deg, tied=None):
+    """the influence matrix of solve() assembled in extended precision (numpy longdouble): its distance from the double-precision
+    matrix measures the round-off of the kernel evaluation itself (evaluation points very close to a filament lose digits)"""
+    ld = np.longdouble
+    ms = [np.asarray(m, dtype=ld) for m in meshes]
+    a = ld(alpha_deg) * ld(np.pi) / ld(180)
+    u = np.array([np.cos(a), ld(0), np.sin(a)], dtype=ld)
+    panels, coll, fpt, bnd, nrm = panel_geometry(ms)
+    coll = np.asarray(coll, dtype=ld)
+    N = len(panels)
+    # collocation points and normals again in extended precision (panel_geometry allocates double arrays)
+    for k, (s_, i, j) in enumerate(panels):
+        m = ms[s_]
+        tl = ld(0.25) * m[i, j] + ld(0.75) * m[i + 1, j]
+        tr = ld(0.25) * m[i, j + 1] + ld(0.75) * m[i + 1, j + 1]
+        coll[k] = (tl + tr) / ld(2)
+    nr = np.empty((N, 3), dtype=ld)
+    for k, (s_, i, j) in enumerate(panels):
+        m = ms[s_]
+        n = np.cross(m[i, j + 1] - m[i + 1, j], m[i, j] - m[i + 1, j + 1])
+        nr[k] = n / np.sqrt((n * n).sum())
+    vms = [vortex_mesh(m) for m in ms]
+    A = np.zeros((N, N), dtype=ld)
+    cache = {}
+    for l, (s_, i, j) in enumerate(panels):
+        w = ring_vel(coll, vms[s_], i, j, u)
+        if tied is not None:
+            for (mf, ii, jj, mult) in tied(s_, i, j):
+                key = id(mf)
+                if key not in cache:
+                    cache[key] = vortex_mesh(np.asarray(mf, dtype=ld))
+                w = w + ld(mult) * ring_vel(coll, cache[key], ii, jj, u)
+        A[:, l] = (w * nr).sum(axis=1)
+    return A
 
 
 def tangency_residual(sol, G):
